@@ -11,7 +11,7 @@ LEVEL = "proof"
 # It only selects the model variant for the *structural* comparison (DIVERGE); property violations
 # (SPECFAIL) are always judged against the requested meaning, i.e. the fixed semantics.
 import os
-IMPL_FLAG = os.environ.get("VERIF_C18_IMPL_FLAG", "stale")   # lead: change the default to "fixed" when the fix: commit lands
+IMPL_FLAG = os.environ.get("VERIF_C18_IMPL_FLAG", "fixed")   # the fix: commit for flippedRetrieval has landed in /repo
 
 LEVEL_TEXT = ("Lean 4 theorems, for all inputs, about a hand-written executable model of SepPair/SepMatrix/"
               "TGLF-SEPCO (transform equivariance for all 8 symmetries, full D4 composition table with plain "
